@@ -191,13 +191,14 @@ class ComplementProjector(LinearOperator):
     __array_ufunc__ = None
 
     def _apply(self: LinearOperator, v: np.ndarray) -> np.ndarray:
-        return v - self._vecs @ (self._left_vecs.conj().T @ v)
+        # np.asarray: a scipy sparse matrix minus an array would be an np.matrix.
+        return np.asarray(v - self._vecs @ (self._left_vecs.conj().T @ v))
 
     _matvec = _matmat = _apply
 
     def _apply_left(self: LinearOperator, v: np.ndarray) -> np.ndarray:
         # Adjoint action, (1 - R L^†)^† v = v - L (R^† v)
-        return v - self._left_vecs @ (self._vecs.conj().T @ v)
+        return np.asarray(v - self._left_vecs @ (self._vecs.conj().T @ v))
 
     _rmatvec = _rmatmat = _apply_left
 
